@@ -1,24 +1,32 @@
 #!/bin/bash
 # matrix.sh: which checks catch which seeded change / reverted fix.  Applies each change to /repo's working tree,
 # runs the property's own check and the checks of its family, restores /repo, appends to seeded/MATRIX.txt.
-cd /verif
+cd "$(dirname "$0")/.." || exit 2
+REPO=${VERIF_REPO:-/repo}
 core="C01 C02 C03 C05 C07 C08"
-fam() { case $1 in
+fam() { case ${1:0:3} in
   C01|C02|C03|C05|C07|C08) echo $core;;
   C04) echo "C04 C01";; C06) echo "C06 C01";; C09) echo "C09";;
   C10|C13) echo "C10 C13";; C11|C12) echo "C11 C12";; C14) echo "C14 C11";;
   C15|C16) echo "C15 C16";; C17) echo "C17";; C18) echo "C18";; C19) echo "C19";; C20) echo "C20 C15";; esac; }
 out=seeded/MATRIX.txt
-echo "# change | checks run -> rc (1 = VIOLATION reported, 0 = silent)   $(date -u +%FT%TZ)  repo=$(git -C /repo rev-parse --short HEAD)" > $out
+echo "# change | checks run -> rc (1 = VIOLATION reported, 0 = silent)   $(date -u +%FT%TZ)  repo=$(git -C $REPO rev-parse --short HEAD)" > $out
 for d in seeded/C*/; do
   id=$(basename $d)
   [ -f $d/patch.diff ] || continue
-  res=$(tools/try_mutant.sh /verif/$d/patch.diff $(fam $id) 2>&1 | grep -o '^\[C[0-9]* rc=[0-9]*\]' | tr '\n' ' ')
+  res=$(tools/try_mutant.sh $PWD/$d/patch.diff $(fam $id) 2>&1 | grep -o '^\[C[0-9]* rc=[0-9]*\][^#]*' | sed 's/VIOLATION property=[A-Z0-9]* replay=[^ ]*//; s/KNOWN-FINDING:.*//' | tr '\n' ' ')
   echo "seeded/$id | $res" >> $out
 done
-for pair in "D3:5c6fc3e:C10" "D4:2f27572:C14" "D1:2d23491:C03" "D2:37e706b:C08" "K2:8e011a4:C08" "D5:37d705b:C15" "D6:6ad5238:C16" "D7:4ebb98e:C14" "D8:89c4979:C20"; do
+for pair in "D3:5c6fc3e:C10" "D4:2f27572:C14" "D1:2d23491:C03" "D2:37e706b:C08" "K2:8e011a4:C08" "D5:37d705b:C15" "D6:6ad5238:C16" "D7:4ebb98e:C14" "D8:89c4979:C20" "D9:1598ea2:C06"; do
   IFS=: read name commit id <<< "$pair"
   res=$(tools/try_mutant.sh -R:$commit $(fam $id) 2>&1 | grep -o '^\[C[0-9]* rc=[0-9]*\]' | tr '\n' ' ')
   echo "revert-$name($commit) | $res" >> $out
 done
-git -C /repo status --short >> $out
+# property-preserving changes: acceptable outcomes are rc=0 or a violation that ends in no-failing-input-found
+for d in seeded/harmless/*/; do
+  id=$(basename $d)
+  [ -f $d/patch.diff ] || continue
+  res=$(tools/try_mutant.sh $PWD/$d/patch.diff $(fam $id) 2>&1 | grep -o '^\[C[0-9]* rc=[0-9]*\][^#]*' | sed 's/VIOLATION property=[A-Z0-9]* replay=[^ ]*//; s/KNOWN-FINDING:.*//' | tr '\n' ' ')
+  echo "harmless/$id | $res" >> $out
+done
+git -C $REPO status --short >> $out
